@@ -9,21 +9,13 @@ import Influx.Model.CodecTime
 import Influx.Model.CodecBool
 import Influx.Model.CodecFloat
 import Influx.Model.CodecString
+import Influx.Spec.C07
 
 namespace Influx.Codec
 open Influx.Generated.Codec
+open Influx.Spec.C07 (Vals)
 
-/-- values of one field type (floats, integers, unsigneds as 64-bit patterns) -/
-inductive Vals
-  | f (l : List Nat) | i (l : List Nat) | u (l : List Nat) | b (l : List Bool) | s (l : List Bytes)
-deriving DecidableEq, Repr
-
-def Vals.length : Vals → Nat
-  | .f l | .i l | .u l => l.length
-  | .b l => l.length
-  | .s l => l.length
-
-def Vals.blockType : Vals → Nat
+def _root_.Influx.Spec.C07.Vals.blockType : Vals → Nat
   | .f _ => BlockFloat64 | .i _ => BlockInteger | .u _ => BlockUnsigned | .b _ => BlockBoolean | .s _ => BlockString
 
 /-- scalar bool encoder: `flush()` appends a (zero) byte even when nothing was written -/
